@@ -50,6 +50,15 @@ Theorem C23_read_linearizable :
 Proof. exact @read_linearizable. Qed.
 Print Assumptions C23_read_linearizable.
 
+(** The premises are satisfiable on a concrete run (two batches, a read at index 2). *)
+Theorem C23_premises_satisfiable :
+  applier_total ex_ap /\ Forall (Forall digestible) ex_bs /\ log_indexed ex_committed /\
+  concat ex_bs = firstn 2 ex_committed /\
+  read_command_serve ex_ap 2 99 (run_batches ex_ap ex_bs (store_init (W := N) [])) = Some (Some [20; 10]) /\
+  applied_cmds (run_batches (resp := list N) ex_ap ex_bs (store_init [])) = cmds_of (firstn 2 ex_committed).
+Proof. exact read_linearizable_premises. Qed.
+Print Assumptions C23_premises_satisfiable.
+
 (** The history oracle of the correspondence decides linearizability (shared with C34). *)
 Theorem C23_oracle_decides : forall h, lin_check h = true <-> linearizable h.
 Proof. exact lin_check_spec. Qed.
